@@ -9,9 +9,9 @@ TUS = ['xinclude/XIncludeLocation.cpp', 'util/PlatformUtils.cpp', 'util/XMLStrin
 HARNESSES = [
  dict(name='location', entry='harness_location', srcs=['C20/location.cpp'], tus=TUS, const_tables=[T10, T11],
       cuts=['_ZN11xercesc_4_016XMLPlatformUtils17removeDotDotSlashEPDsPNS_13MemoryManagerE'],
-      defs={'quick': {'NH': 3, 'NB': 3, 'CUT_DOTDOT': 1}, 'thorough': {'NH': 6, 'NB': 4, 'CUT_DOTDOT': 1}}, unwind={'quick': 9, 'thorough': 13}, timeout={'quick': 300, 'thorough': 1700}),
+      defs={'quick': {'NH': 3, 'NB': 3, 'CUT_DOTDOT': 1}, 'thorough': {'NH': 6, 'NB': 4, 'CUT_DOTDOT': 1}}, unwind={'quick': 12, 'thorough': 16}, timeout={'quick': 300, 'thorough': 1700}),
  dict(name='dotdot', entry='harness_dotdot', srcs=['C20/location.cpp'], tus=TUS, const_tables=[T10, T11],
-      defs={'quick': {'ND': 3}, 'thorough': {'ND': 5}}, unwind={'quick': 8, 'thorough': 10}, timeout={'quick': 300, 'thorough': 1700}, no_unwind_adapt=True),
+      defs={'quick': {'ND': 1}, 'thorough': {'ND': 2}}, unwind={'quick': 6, 'thorough': 8}, timeout={'quick': 300, 'thorough': 1700}, no_unwind_adapt=True),
  dict(name='protocol', entry='harness_protocol', srcs=['C20/location.cpp'], tus=TUS, const_tables=[T10, T11],
       defs={'quick': {'NS': 9}, 'thorough': {'NS': 10}}, unwind={'quick': 12, 'thorough': 13}, timeout={'quick': 600, 'thorough': 1700}),
 ]
